@@ -16,6 +16,8 @@ class LogModel(Model):
 class S(System):
     def execute(self):
         self.model.log.append((self.id, self.model.systems.timestep))
+        if self.model.timestep != self.model.systems.timestep:        # the model-level timestep, as a running system sees it
+            self.model.log.append(("model.timestep differs", self.model.timestep))
 
 
 def _make(kind, m, f, start, end):
@@ -51,7 +53,15 @@ def window(start: int, end: int, f: int, t0: int) -> bool:
     m.systems.timestep = t0
     if m.timestep != t0:
         return hx.end(hx.fail("model.timestep != scheduler timestep before step"))
-    m.execute()
+    via = hx.P.get('via', 'execute')
+    if via == 'execute':
+        m.execute()
+    elif via == 'execute_systems':            # the scheduler's own entry point (the tutorial's run loop uses it)
+        m.systems.execute_systems()
+    else:
+        import warnings
+        warnings.simplefilter("ignore")
+        m.systems.executeSystems()            # deprecated alias
     ran = len(m.log)
     should = start <= t0 <= end and (t0 - start) % f == 0
     if should:
@@ -405,7 +415,7 @@ def obligations(tier):
                {"steps": 3, "f": [2, 1], "third": [-1, 4, 2, 1]}, {"steps": 3, "f": [4, 2], "third": [0, 0, 1, 2]}]
     return [
         X("window", window, parts=[{"kind": k} for k in ("system", "positional", "collector", "collector_positional",
-                                                         "agent_collector", "file_collector")],
+                                                         "agent_collector", "file_collector")] + [{"kind": "system", "via": v} for v in ("execute_systems", "alias")],
           labels=("runs", "skips"), timeout=120, encoded=enc + (System.__init__,),
           bounds={"start,end,frequency,timestep": "all ints, frequency >= 1",
                   "system kinds": "System, Collector, AgentCollector, FileCollector (window passed by keyword / positionally)"}),
